@@ -24,18 +24,19 @@ def valOf (w : Nat) (m : Mem) (F : Nat) : Opd → Nat
 /-- `m'` differs from `m` only in the registers `r0 r1 r2` and below address `a` -/
 structure Keep (w : Nat) (m m' : Mem) (a : Nat) : Prop where
   size : m'.size = m.size
-  low : ∀ x, x < 2 * w → m'.rd x = m.rd x
+  fp : m'.readLE w w = m.readLE w w
+  ap : m'.readLE 0 w = m.readLE 0 w
   hi : ∀ x, a ≤ x → m'.rd x = m.rd x
 
-theorem Keep.refl (w : Nat) (m : Mem) (a : Nat) : Keep w m m a := ⟨rfl, fun _ _ => rfl, fun _ _ => rfl⟩
+theorem Keep.refl (w : Nat) (m : Mem) (a : Nat) : Keep w m m a := ⟨rfl, rfl, rfl, fun _ _ => rfl⟩
 
 theorem Keep.trans {w : Nat} {m m1 m2 : Mem} {a b : Nat} (h1 : Keep w m m1 a) (h2 : Keep w m1 m2 b) :
     Keep w m m2 (max a b) :=
-  ⟨h2.size.trans h1.size, fun x hx => (h2.low x hx).trans (h1.low x hx),
+  ⟨h2.size.trans h1.size, h2.fp.trans h1.fp, h2.ap.trans h1.ap,
    fun x hx => (h2.hi x (by omega)).trans (h1.hi x (by omega))⟩
 
 theorem Keep.mono {w : Nat} {m m' : Mem} {a b : Nat} (h : Keep w m m' a) (hab : a ≤ b) : Keep w m m' b :=
-  ⟨h.size, h.low, fun x hx => h.hi x (by omega)⟩
+  ⟨h.size, h.fp, h.ap, fun x hx => h.hi x (by omega)⟩
 
 theorem Keep.trans' {w : Nat} {m m1 m2 : Mem} {a : Nat} (h1 : Keep w m m1 a) (h2 : Keep w m1 m2 a) :
     Keep w m m2 a := by simpa using h1.trans h2
@@ -43,14 +44,8 @@ theorem Keep.trans' {w : Nat} {m m1 m2 : Mem} {a : Nat} (h1 : Keep w m m1 a) (h2
 /-- a write of `k` bytes at `d`, above `ap fp` and below `a` -/
 theorem Keep.write (w : Nat) (m : Mem) (d k v a : Nat) (h2 : 2 * w ≤ d) (ha : d + k ≤ a) :
     Keep w m (m.writeLE d k v) a :=
-  ⟨by simp, fun x hx => Mem.rd_writeLE_other _ _ _ _ _ (by omega),
+  ⟨by simp, Mem.readLE_writeLE_disj _ _ _ _ _ _ (by omega), Mem.readLE_writeLE_disj _ _ _ _ _ _ (by omega),
    fun x hx => Mem.rd_writeLE_other _ _ _ _ _ (by omega)⟩
-
-theorem Keep.fp {w : Nat} {m m' : Mem} {a : Nat} (h : Keep w m m' a) : m'.readLE w w = m.readLE w w :=
-  Mem.readLE_congr _ _ _ _ (fun x _ h2 => h.low x (by omega))
-
-theorem Keep.ap {w : Nat} {m m' : Mem} {a : Nat} (h : Keep w m m' a) : m'.readLE 0 w = m.readLE 0 w :=
-  Mem.readLE_congr _ _ _ _ (fun x _ h2 => h.low x (by omega))
 
 theorem Keep.read {w : Nat} {m m' : Mem} {a : Nat} (h : Keep w m m' a) (x k : Nat) (hx : a ≤ x) :
     m'.readLE x k = m.readLE x k :=
